@@ -1,12 +1,12 @@
 # scenario `progress` (harness/src/scen_progress.rs) and the C02 oracles of the `streams` generator.
 # Keys: wedge-quiescent-with-obligation, progress-wedge, handshake-never-completed, connection-lost-under-fair-loss,
-# workload-incomplete (simulator) and C02-writable-lost, C02-available-lost, C02-readable-lost (micro generator `streams`,
-# the last one in gen/streams_hist.rs): all C02.
+# workload-incomplete (simulator) and C02-writable-lost, C02-available-lost, C02-max-streams-not-queued, C02-readable-lost
+# (micro generator `streams`, the last one in gen/streams_hist.rs): all C02.
 # One seed of `progress` is a random execution (all TransportConfig knobs + run-time API calls), or the 510 loss masks over
 # the first 8 handshake datagrams, or the 255 masks over 8 consecutive transfer datagrams (see PROGRESS_RULE).
 _P = ('progress', 24, 400)
 PROPS = {
     'C02': dict(micro=['streams'], sim=[_P],
-                modelled='stream layer (Lemmas/StreamsProgress.lean): an application polling until nothing is reported is handed every queued event; MAX_STREAMS that makes room for a refused opener yields Available; MAX_STREAM_DATA / connection-level credit that makes room for a refused writer yields Writable (for every state of the StreamsState model); a STREAM frame / RESET_STREAM accepted on a receiving half the application has not stopped yields Readable, or Opened for a stream the application does not hold yet (Props/C02 readable_after_data / readable_after_reset); the same facts as oracles of the `streams` generator on the real StreamsState (C02-writable-lost, C02-available-lost, C02-readable-lost; ghost credit / ghost read offset from the peer frames and the calls of the test itself); system level (scenario progress): every TransportConfig knob, run-time API calls at any step, exhaustive 8-datagram loss masks on handshake and transfer, judged by completion within a PTO-derived bound and by the property-derived oracle wedge-quiescent-with-obligation at every globally quiescent point',
+                modelled='stream layer (Lemmas/StreamsProgress.lean): an application polling until nothing is reported is handed every queued event; MAX_STREAMS that makes room for a refused opener yields Available; MAX_STREAM_DATA / connection-level credit that makes room for a refused writer yields Writable (for every state of the StreamsState model); a STREAM frame / RESET_STREAM accepted on a receiving half the application has not stopped yields Readable, or Opened for a stream the application does not hold yet (Props/C02 readable_after_data / readable_after_reset); a slot of the peer given back by an application call (stop on a stream with known final size, a read to the end, received_reset) is queued for MAX_STREAMS by that call when the unannounced raise is significant (Lemmas/StreamsAnnounce.lean, Props/C02 stop_announces_freed_slot / read_announces_freed_slot / received_reset_announces_freed_slot); the same facts as oracles of the `streams` generator on the real StreamsState (C02-writable-lost, C02-available-lost, C02-readable-lost, C02-max-streams-not-queued; ghost credit / ghost read offset from the peer frames and the calls of the test itself); system level (scenario progress): every TransportConfig knob, run-time API calls at any step, exhaustive 8-datagram loss masks on handshake and transfer, judged by completion within a PTO-derived bound and by the property-derived oracle wedge-quiescent-with-obligation at every globally quiescent point',
                 not_modelled='remotely initiated bidirectional streams in writable_after_credit; a poll that panics (debug assertion) is outside the delivery theorems'),
 }
